@@ -305,6 +305,22 @@ struct qsbr_state {
 
   /// Increment both the thread count and threads in previous epoch in \a word.
   [[nodiscard, gnu::const]] static constexpr type
+  dec_threads_in_previous_epoch(type word) noexcept {
+    assert_invariants(word);
+    UNODB_DETAIL_ASSERT(get_threads_in_previous_epoch(word) > 0);
+
+    const auto result = word - 1;
+
+    assert_invariants(result);
+    UNODB_DETAIL_ASSERT(get_epoch(word) == get_epoch(result));
+    UNODB_DETAIL_ASSERT(get_threads_in_previous_epoch(word) - 1 ==
+                        get_threads_in_previous_epoch(result));
+    UNODB_DETAIL_ASSERT(get_thread_count(word) == get_thread_count(result));
+
+    return result;
+  }
+
+  [[nodiscard, gnu::const]] static constexpr type
   inc_thread_count_and_threads_in_previous_epoch(type word) noexcept {
     assert_invariants(word);
 
